@@ -3586,7 +3586,7 @@ class CaseNode(Node):
             actions, new_next = target.adopt_actions_from()
 
             # adopt into our internal list
-            self.case_match_actions.update({sub_matches: actions})
+            self.case_match_actions.update({sub_matches: list(actions)})  # (an action-only if hands over a tuple; set_next extends this list)
             if new_next is not None:
                 self.sub_matches[sub_matches] = new_next
             else:
@@ -3909,6 +3909,9 @@ class OptionalNode(ActionSinkNode):
         sub_dfa = self.sub_contents.convert(current_error_handlers)
         if sub_dfa.starting_state in sub_dfa.accepting_states:
             raise IllegalDFAStateError("Ambigious path in optional: should use optional or go to next", sub_dfa.starting_state)
+        if isinstance(sub_dfa.starting_state, DFConditionPoint):
+            # skipping the optional would leave from the condition point itself, which has no symbols to leave on
+            raise IllegalDFAStateError("An optional cannot start with a conditional; put the optional inside the branches instead", sub_dfa.starting_state)
 
         sub_dfa.mark_accepting(sub_dfa.starting_state)
 
@@ -4855,6 +4858,16 @@ class ParseCtx:
         else:
             raise IllegalParseTree("Only string and raw outputs can be appended to, did you mean =?", stmt)
 
+    def _check_case_clauses(self, stmt: lark.Tree, clauses: List[lark.Tree]):
+        """
+        What holds for the clauses of a case statement, greedy or not
+        """
+
+        if all(all(pred.data == "else_predicate" for pred in clause.children if pred.data in ("else_predicate", "expr_predicate")) for clause in clauses):
+            raise IllegalParseTree("A case statement needs at least one clause that matches input", stmt)
+        if sum(1 for clause in clauses if any(pred.data == "else_predicate" for pred in clause.children)) > 1:
+            raise IllegalParseTree("A case statement can have only one else clause", stmt)
+
     def _parse_case_clause(self, clause: lark.Tree):
         result_set = set()
         target_dfa = None
@@ -4953,15 +4966,13 @@ class ParseCtx:
             return ProgramData.imbue(self._parse_assign_stmt(stmt, stmt.data == "append_stmt"), DTAG.SOURCE_LINE, stmt.meta.line, DTAG.SOURCE_COLUMN, stmt.meta.column)
         elif stmt.data == "case_stmt":
             # Find all of the matches
-            if all(all(pred.data == "else_predicate" for pred in clause.children if pred.data in ("else_predicate", "expr_predicate")) for clause in stmt.children):
-                raise IllegalParseTree("A case statement needs at least one clause that matches input", stmt)
-            if sum(1 for clause in stmt.children if any(pred.data == "else_predicate" for pred in clause.children)) > 1:
-                raise IllegalParseTree("A case statement can have only one else clause", stmt)
+            self._check_case_clauses(stmt, stmt.children)
             return ProgramData.imbue(ProgramData.imbue(CaseNode({k: v for k, v in (self._parse_case_clause(x) for x in stmt.children)}), 
                 DTAG.SOURCE_LINE, stmt.meta.line),
                 DTAG.SOURCE_COLUMN, stmt.meta.column
             )
         elif stmt.data == "greedy_case_stmt":
+            self._check_case_clauses(stmt, [clause for block in stmt.children for clause in ([block] if block.data == "case_clause" else block.children[1:])])
             case_blocks = {}
             priorities = {}
             for block in stmt.children:
